@@ -40,6 +40,7 @@ type Engine struct {
 	replayOracles   map[string]string
 	errGlobals      map[string]int // "glob:pkg.Var" of error variables initialised once by errors.New and never written again
 	errGlobalNames  []string
+	initOnly        map[string]bool // heap-key prefixes ("pkg.Type.f<i>_") of unexported fields written only on objects the writing function has just allocated
 }
 
 func (e *Engine) isRepoPkg(path string) bool {
@@ -105,6 +106,7 @@ func loadEngine(repo, verif string) (*Engine, error) {
 		e.funcs[e.canon(fn)] = fn
 	}
 	e.findErrGlobals()
+	e.findInitOnlyFields()
 	return e, nil
 }
 
@@ -287,4 +289,113 @@ func (e *Engine) errorStringType() types.Type {
 		}
 	}
 	panic(unsupported("errors.errorString not loaded"))
+}
+
+// findInitOnlyFields: an unexported field of a repository struct type that is only ever stored to through an object
+// the storing function allocated itself (composite literal / new, possibly merged by a phi), and whose address never
+// leaves the storing or loading instruction, cannot change once the object has been published. Unknown code (handlers,
+// callbacks) therefore leaves such fields as it found them. The scan covers the SSA of every repository function.
+func (e *Engine) findInitOnlyFields() {
+	type fkey struct {
+		t   *types.Named
+		idx int
+	}
+	bad := map[fkey]bool{}
+	seen := map[fkey]bool{}
+	var isFreshBase func(v ssa.Value, depth int) bool
+	isFreshBase = func(v ssa.Value, depth int) bool {
+		if depth > 4 {
+			return false
+		}
+		switch x := v.(type) {
+		case *ssa.Alloc:
+			return true
+		case *ssa.Phi:
+			for _, ed := range x.Edges {
+				if !isFreshBase(ed, depth+1) {
+					return false
+				}
+			}
+			return true
+		}
+		return false
+	}
+	keyOf := func(fa *ssa.FieldAddr) (fkey, bool) {
+		pt, ok := fa.X.Type().Underlying().(*types.Pointer)
+		if !ok {
+			return fkey{}, false
+		}
+		n, ok := pt.Elem().(*types.Named)
+		if !ok || n.Obj().Pkg() == nil || !e.isRepoPkg(n.Obj().Pkg().Path()) {
+			return fkey{}, false
+		}
+		return fkey{n, fa.Field}, true
+	}
+	for fn := range ssautil.AllFunctions(e.prog) {
+		if fn.Pkg == nil || !e.isRepoPkg(fn.Pkg.Pkg.Path()) {
+			continue
+		}
+		for _, b := range fn.Blocks {
+			for _, in := range b.Instrs {
+				if st, isStore := in.(*ssa.Store); isStore {
+					// a whole-struct store through a pointer (*p = v) rewrites every field of the object
+					if pt, ok := st.Addr.Type().Underlying().(*types.Pointer); ok {
+						if n, ok := pt.Elem().(*types.Named); ok && n.Obj().Pkg() != nil && e.isRepoPkg(n.Obj().Pkg().Path()) {
+							if sst, ok := n.Underlying().(*types.Struct); ok && !isFreshBase(st.Addr, 0) {
+								for i := 0; i < sst.NumFields(); i++ {
+									bad[fkey{n, i}] = true
+								}
+							}
+						}
+					}
+				}
+				fa, ok := in.(*ssa.FieldAddr)
+				if !ok {
+					continue
+				}
+				k, ok := keyOf(fa)
+				if !ok {
+					continue
+				}
+				seen[k] = true
+				for _, ref := range *fa.Referrers() {
+					switch r := ref.(type) {
+					case *ssa.Store:
+						if r.Addr == fa {
+							if !isFreshBase(fa.X, 0) {
+								bad[k] = true
+							}
+						} else {
+							bad[k] = true // the address itself is stored somewhere
+						}
+					case *ssa.UnOp:
+						if r.Op != token.MUL {
+							bad[k] = true
+						}
+					case *ssa.DebugRef:
+					default:
+						bad[k] = true // address escapes (call argument, nested field address, ...)
+					}
+				}
+			}
+		}
+	}
+	e.initOnly = map[string]bool{}
+	for k := range seen {
+		if bad[k] {
+			continue
+		}
+		st, ok := k.t.Underlying().(*types.Struct)
+		if !ok {
+			continue
+		}
+		f := st.Field(k.idx)
+		if f.Exported() && k.t.Obj().Exported() {
+			continue // code outside the repository can write it
+		}
+		e.initOnly[fmt.Sprintf("%s.f%d_", e.structKey(k.t), k.idx)] = true
+		if os.Getenv("GOVC_SHOW_INITONLY") != "" {
+			fmt.Fprintf(os.Stderr, "init-only: %s.%s\n", e.structKey(k.t), f.Name())
+		}
+	}
 }
